@@ -321,6 +321,15 @@ def skeletons():
     sk('auto-callable-in-dict', 'pass', lambda inj: ({'a': 1}, {'x': 'a', 'y': Fn(inj, 'callable', ident)}, glom))
     sk('auto-callable-in-list', 'pass', lambda inj: ([1, 2], [Fn(inj, 'callable', ident)], glom))
     sk('auto-callable-depth3', 'pass', lambda inj: ({'a': [1, 2]}, ('a', [{'k': (T, Fn(inj, 'callable', ident))}]), glom))
+    # callables inside Fill-mode and argument-mode containers (every container type the two modes rebuild)
+    sk('fill-tuple-callable', 'pass', lambda inj: ({'a': 1}, Fill((Fn(inj, 'callable', ident), T['a'])), glom))
+    sk('fill-list-callable', 'pass', lambda inj: ({'a': 1}, Fill([T['a'], Fn(inj, 'callable', ident)]), glom))
+    sk('fill-set-callable', 'pass', lambda inj: (3, Fill({Fn(inj, 'callable', ident)}), glom))
+    sk('fill-frozenset-callable', 'pass', lambda inj: (3, Fill(frozenset([Fn(inj, 'callable', ident)])), glom))
+    sk('fill-dict-callable', 'pass', lambda inj: ({'a': 1}, Fill({'k': Fn(inj, 'callable', ident)}), glom))
+    sk('fill-nested-callable', 'pass', lambda inj: ({'a': 1}, Fill({'k': [(Fn(inj, 'callable', ident),)]}), glom))
+    sk('arg-tuple-spec', 'pass', lambda inj: (3, Call(ident, args=((Spec(Fn(inj, 'argspec', ident)), 1),)), glom))
+    sk('arg-set-spec', 'pass', lambda inj: (3, Call(ident, args=({Spec(Fn(inj, 'argspec', ident))},)), glom))
     sk('t-call', 'pass', lambda inj: ({'f': Fn(inj, 'callee', lambda: 1)}, T['f'](), glom))
     sk('t-call-arg', 'pass', lambda inj: ({'f': (lambda x: x), 'g': Fn(inj, 'callee', lambda: 2)}, T['f'](T['g']()), glom))
     sk('call-func', 'pass', lambda inj: (3, Call(Fn(inj, 'func', lambda x: x), args=(T,)), glom))
